@@ -4,4 +4,5 @@ import Driver.Evq
 import Driver.EvqConc
 import Driver.StreamD
 import Driver.NetD
+import Driver.NodeD
 import Driver.Main
